@@ -3,6 +3,8 @@
 package main
 
 import (
+	"crypto/rsa"
+	"crypto/ed25519"
 	"bytes"
 	"crypto/rand"
 	"crypto/x509"
@@ -110,6 +112,22 @@ func genC05(tier string, r *rng) {
 	for _, bits := range []int{200, 328, 336, 344, 352, 360, 368, 376, 384, 392, 400, 512} {
 		ders = append(ders, mustMarshal(asn1struct.PKCS1PublicKey{N: oddOfBits(r, bits), E: 65537}))
 	}
+	// objects whose DER ends (or begins its content) with octets a text-minded dispatcher might trim: Ed25519 PKCS#8 keys whose
+	// last octet is LF, CR, HT, VT, FF, space, NEL (C2 85), NBSP (C2 A0), a BOM-like tail; a multi-prime RSA key (version 1,
+	// tenth field otherPrimeInfos), which only its PEM label or a careful trial order tells from a two-prime one
+	for _, tail := range [][]byte{{0x0a}, {0x0d}, {0x09}, {0x0b}, {0x0c}, {0x20}, {0xc2, 0x85}, {0xc2, 0xa0}, {0x0d, 0x0a}, {0x20, 0x20}, {0x00}, {0xef, 0xbb, 0xbf}} {
+		seed := r.bytes(32)
+		copy(seed[32-len(tail):], tail)
+		if p8, err := x509.MarshalPKCS8PrivateKey(ed25519.NewKeyFromSeed(seed)); err == nil {
+			knownLabel[string(p8)] = "PRIVATE KEY"
+			ders = append([][]byte{p8}, ders...)
+		}
+	}
+	if mk, err := rsa.GenerateMultiPrimeKey(rand.Reader, 3, 1024); err == nil {
+		d := x509.MarshalPKCS1PrivateKey(mk)
+		knownLabel[string(d)] = "RSA PRIVATE KEY"
+		ders = append([][]byte{d}, ders...)
+	}
 	// well-formed certificates that crypto/x509 refuses (subject keys on brainpoolP256r1 / secp256k1): the generator knows
 	// they are certificates
 	for _, curve := range [][]int{{1, 3, 36, 3, 3, 2, 8, 1, 1, 7}, {1, 3, 132, 0, 10}} {
@@ -123,7 +141,7 @@ func genC05(tier string, r *rng) {
 		// keep a deterministic subset in the quick tier
 		var sub [][]byte
 		for i, d := range ders {
-			if i%3 == 0 || len(d) < 80 {
+			if _, known := knownLabel[string(d)]; i%3 == 0 || len(d) < 80 || known {
 				sub = append(sub, d)
 			}
 		}
@@ -133,6 +151,11 @@ func genC05(tier string, r *rng) {
 	names := []string{"x.bin", "authorized_keys.txt", "object", "known_hosts.der", "cert.pem"}
 	for oi, der := range ders {
 		ref, err := inspectAt("x.bin", der)
+		if l, known := knownLabel[string(der)]; known && (err != nil || ref.Description == "") {
+			// the generator knows what the object is: when the raw DER gets no description at all, the PEM presentation is
+			// the reference the DER has to match
+			ref, err = inspectAt("x.pem", pem.EncodeToMemory(&pem.Block{Type: l, Bytes: der}))
+		}
 		if err != nil || ref.Description == "" {
 			continue
 		}
